@@ -455,6 +455,7 @@ type checkOpts struct {
 	workers                   int
 	maxRuns                   int
 	noEvidence                bool
+	probes                    bool
 	tag                       string
 }
 
@@ -680,7 +681,14 @@ func checkOne(o checkOpts, e *EngineDef) (int, map[string]any, int) {
 	shrunkFinding := map[*Finding]bool{}
 	repDir := filepath.Join(verifDir, "replays", o.prop)
 	if o.patch != "" {
-		repDir = filepath.Join(wd, "replays")
+		// violations found against a patched copy are kept too (replay them with `verifctl replay <file> --patch <diff>`)
+		repDir = filepath.Join(verifDir, "replays", o.prop+"-patched")
+	}
+	// replay files of earlier runs of this engine are stale by definition
+	if old, _ := filepath.Glob(filepath.Join(repDir, e.Name+"--*.json")); len(old) > 0 {
+		for _, f := range old {
+			_ = os.Remove(f)
+		}
 	}
 	for i, sig := range sigOrder {
 		fv := bySig[sig]
@@ -689,7 +697,7 @@ func checkOne(o checkOpts, e *EngineDef) (int, map[string]any, int) {
 		raw := filepath.Join(wd, fmt.Sprintf("viol-%d.json", i))
 		rb, _ := json.Marshal(map[string]any{"property": o.prop, "signature": sig, "plan": fv.Plan})
 		_ = os.WriteFile(raw, rb, 0o644)
-		path := filepath.Join(repDir, slug(strings.TrimPrefix(sig, o.prop+"/"))+".json")
+		path := filepath.Join(repDir, e.Name+"--"+slug(strings.TrimPrefix(sig, o.prop+"/"))+".json")
 		doShrink := i < 6
 		if oc.known != nil {
 			// one minimised exemplar per recorded finding is enough
@@ -783,6 +791,17 @@ func checkOne(o checkOpts, e *EngineDef) (int, map[string]any, int) {
 	}
 	fmt.Printf("property=%s engine=%s tier=%s seed=%d runs=%d nontrivial=%d distinct=%d steps=%d faults=%v wall=%.1fs build=%.1fs\n",
 		o.prop, e.Name, o.tier, o.seed, agg.Runs, agg.Nontrivial, len(distinct), agg.Stats.Steps, agg.Stats.Faults, wall, buildS)
+	if o.probes {
+		keys := make([]string, 0, len(agg.Stats.Probes))
+		for k := range agg.Stats.Probes {
+			keys = append(keys, k)
+		}
+		sort.Strings(keys)
+		for _, k := range keys {
+			fmt.Printf("  probe %-50s %d\n", k, agg.Stats.Probes[k])
+		}
+		fmt.Printf("  ops=%d skipped=%d oracle_evals=%d fault_calls=%d sim_time_s=%.0f\n", agg.Stats.Ops, agg.Stats.OpsSkipped, agg.Stats.OracleEvals, agg.Stats.FaultCalls, float64(agg.Stats.SimNanos)/1e9)
+	}
 	if agg.Runs == 0 || len(distinct) < 2 {
 		fmt.Fprintf(os.Stderr, "MACHINERY-ERROR property=%s: explored nothing (runs=%d distinct=%d)\n", o.prop, agg.Runs, len(distinct))
 		return 2, nil, 0
@@ -798,7 +817,11 @@ func checkOne(o checkOpts, e *EngineDef) (int, map[string]any, int) {
 			continue
 		}
 		fmt.Printf("VIOLATION property=%s replay=%s\n", o.prop, oc.path)
-		fmt.Printf("  signature: %s\n  shrunk to %d ops\n  %s\n", oc.sig, oc.shrunkOps, firstLines(oc.msg, 12))
+		if oc.ok {
+			fmt.Printf("  signature: %s\n  shrunk to %d ops\n  %s\n", oc.sig, oc.shrunkOps, firstLines(oc.msg, 12))
+		} else {
+			fmt.Printf("  signature: %s\n  (not minimised: only the first classes of a run are shrunk)\n  %s\n", oc.sig, firstLines(oc.msg, 12))
+		}
 		code = 1
 	}
 	return code, cov, unknown
@@ -829,6 +852,15 @@ func cmdReplay(path string, trace bool, patch string) int {
 	}
 	if err := json.Unmarshal(b, &rf); err != nil {
 		die(2, "%v", err)
+	}
+	if rf.Plan.Engine == "" {
+		// a bare plan (e.g. .work/harness-failure-*.json)
+		var bare struct {
+			Engine string `json:"engine"`
+			Prop   string `json:"prop"`
+		}
+		_ = json.Unmarshal(b, &bare)
+		rf.Plan.Engine, rf.Plan.Prop = bare.Engine, bare.Prop
 	}
 	es, err := loadEngines()
 	if err != nil {
@@ -1067,6 +1099,7 @@ func main() {
 		patch := flag("patch", "")
 		tag := flag("tag", "")
 		noEv := boolFlag("no-evidence")
+		probes := boolFlag("probes")
 		if len(args) < 1 {
 			die(2, "usage: verifctl check <property> [--tier quick|thorough] [--seed N] [--seconds S] [--patch file]")
 		}
@@ -1081,7 +1114,7 @@ func main() {
 		sec, _ := strconv.ParseFloat(secS, 64)
 		workers, _ := strconv.Atoi(workersS)
 		maxRuns, _ := strconv.Atoi(maxRunsS)
-		os.Exit(cmdCheck(checkOpts{prop: args[0], tier: tier, seed: seed, seconds: sec, workers: workers, maxRuns: maxRuns, engine: engine, patch: patch, noEvidence: noEv, tag: tag}))
+		os.Exit(cmdCheck(checkOpts{prop: args[0], tier: tier, seed: seed, seconds: sec, workers: workers, maxRuns: maxRuns, engine: engine, patch: patch, noEvidence: noEv, probes: probes, tag: tag}))
 	case "replay":
 		trace := boolFlag("trace")
 		patch := flag("patch", "")
